@@ -18,15 +18,15 @@ META = {
     "level_text": "All sequences of mutating operations (set_field, item assignment, pop, item deletion x 4 keys incl. case variants) to depth k from three start entries, and random sequences of depth 30, are executed on the real Entry; after each step every read operation (get, in, [], fields, fields_dict, items, ENTRYTYPE/ID) is compared with a Python dict subjected to the same operations. Every block and field of parsed documents is compared with its copy/deepcopy (must be equal) and with every single-attribute perturbation (must be unequal both ways).",
     "level_note": "`del entry[absent]`: KeyError or a no-op are both accepted (statement and documented contract disagree), fields must stay unchanged",
 }
-RULE = ("mapping cases = operation sequences over keys {a, A, b, c}: exhaustive to depth k from 3 start entries + random depth 30; non-trivial = "
+RULE = ("mapping cases = operation sequences over keys {a, A, ab, b}: exhaustive to depth k from 3 start entries + random depth 30; non-trivial = "
         "the sequence replaces an existing key and removes a key; equality cases = parsed documents, every block/field x every perturbation "
         "kind; non-trivial = document with >= 1 entry with >= 2 fields; distinct = distinct sequence / document")
 ASSUMPTIONS = ["field keys distinct and not ENTRYTYPE/ID", "perturbed objects are rebuilt through the public constructors"]
 MIN = {"model_step": (100000, 1000000), "entry_invariant": (100000, 1000000), "eq_copy": (5000, 100000), "eq_perturbation": (20000, 400000)}
 
-KEYS = ["a", "A", "b", "c"]
+KEYS = ["a", "A", "ab", "b"]      # case variants and keys that are substrings of another key
 MUT = [(op, k) for op in ("set_field", "setitem", "pop", "pop_default", "delitem") for k in KEYS]
-STARTS = [[], ["a", "b"], ["A", "a", "c"]]
+STARTS = [[], ["a", "b"], ["A", "a", "ab"]]
 
 
 def _K(tier):
@@ -48,7 +48,7 @@ def cases(tier, seed, shard, nshards):
     r = rng_for(seed, shard, "c19")
     for _ in range(tier_pick(tier, 8000, 60000) // nshards):
         yield {"k": "map", "start": r.randrange(len(STARTS)), "ops": [list(r.choice(MUT)) for _ in range(30)]}
-    for _ in range(tier_pick(tier, 3000, 100000) // nshards):
+    for _ in range(tier_pick(tier, 6000, 400000) // nshards):
         text, _ = grammar.document(r, grammar.Opts(max_items=5, min_items=1))
         yield {"k": "eq", "text": text}
 
